@@ -9,7 +9,6 @@ package codon
 // verif:bound C06 concatenation/partial-codon/case clauses: tables 1, 2, 11 and one more chosen by VERIF_SEED, strings over {A,C,G,T,a,c,g,t} of length 1..7 (quick) / 1..10 (thorough), every codon-boundary split
 // verif:bound C06 outside the claim: strings longer than the stated lengths (the quantifier goes to 3000)
 
-import "sort"
 
 func Harness_C06_CodonTable() {
 	id := ncbiIDs[vChoice(len(ncbiIDs))]
@@ -25,25 +24,6 @@ func Harness_C06_CodonTable() {
 		vAssert(got[0] == want, "codon-translates-to-ncbi-assignment")
 	}
 	vCover("C06 lower-case codon", cod[0] >= 'a')
-}
-
-func c06SameSet(a []string, b string) bool {
-	var w []string
-	for i := 0; i+3 <= len(b); i += 4 {
-		w = append(w, b[i:i+3])
-	}
-	x := append([]string{}, a...)
-	sort.Strings(x)
-	sort.Strings(w)
-	if len(x) != len(w) {
-		return false
-	}
-	for i := range x {
-		if x[i] != w[i] {
-			return false
-		}
-	}
-	return true
 }
 
 func Harness_C06_StartStop() {
